@@ -29,10 +29,10 @@ type Solver struct {
 	Bin       string
 	TimeoutMs int
 
-	names   map[*Term]string
+	names    map[*Term]string
 	declared map[string]bool
-	nextID  int
-	buf     strings.Builder
+	nextID   int
+	buf      strings.Builder
 
 	// statistics
 	Queries   int
@@ -44,7 +44,7 @@ type Solver struct {
 	LastError string
 
 	// optional log of standalone assertion queries
-	session strings.Builder // all level-0 commands of the current session (decls, defs, asserts)
+	session     strings.Builder // all level-0 commands of the current session (decls, defs, asserts)
 	KeepSession bool
 }
 
